@@ -98,9 +98,9 @@ func Execute(schema *ast.Schema, doc *ast.QueryDocument, op *ast.OperationDefini
 
 func execute(schema *ast.Schema, doc *ast.QueryDocument, op *ast.OperationDefinition, vars map[string]any, w World, deferOn bool) Result {
 	e := &exec{schema: schema, doc: doc, vars: vars, w: w, deferOn: deferOn}
-	rootType := "Query"
+	rootType := schema.Query.Name
 	if op.Operation == ast.Mutation {
-		rootType = "Mutation"
+		rootType = schema.Mutation.Name
 	}
 	data, ok := e.selectionSet(rootType, nil, op.SelectionSet, "")
 	if !ok {
@@ -290,7 +290,7 @@ func (e *exec) selectionSet(objType string, obj *Obj, set ast.SelectionSet, path
 			v = "null"
 		}
 		sb.WriteString(v)
-		if objType == "Mutation" && e.rootDone != nil {
+		if e.schema.Mutation != nil && objType == e.schema.Mutation.Name && e.rootDone != nil {
 			e.rootDone(c.key)
 		}
 	}
@@ -304,7 +304,7 @@ func (e *exec) selectionSet(objType string, obj *Obj, set ast.SelectionSet, path
 // deferrable: only resolver-backed, non-root fields are delivered later
 // (plain fields of a deferred fragment arrive with the object).
 func (e *exec) deferrable(objType string, c *collected) bool {
-	if objType == "Query" || objType == "Mutation" || objType == "Subscription" {
+	if objType == "Query" || objType == "Commands" || objType == "Mutation" || objType == "Subscription" {
 		return false
 	}
 	switch objType + "." + c.fields[0].Name {
@@ -480,6 +480,11 @@ func (e *exec) complete(t *ast.Type, out Out, sub ast.SelectionSet, path string)
 }
 
 func (e *exec) completeObj(t *ast.Type, o *Obj, sub ast.SelectionSet, path string) (string, bool) {
+	if e.schema.Types[o.Type] == nil {
+		// user code returned a value that is not a type of the schema: that position fails
+		e.fail(path)
+		return e.nullAt(t, path, true)
+	}
 	v, ok := e.selectionSet(o.Type, o, sub, path)
 	if !ok {
 		return e.nullAt(t, path, true)
